@@ -1,4 +1,5 @@
 """Common body of the three buffer checks (C03, C07, C08)."""
+import asyncio
 import logging
 import random
 
@@ -22,6 +23,33 @@ ASSUMPTIONS_COMMON = [
     '(the Lean machine is single-threaded: a foreign flag clear is the extra input `fclear`, which keeps the invariant)',
 ]
 PHASES = {0: 'transient', 1: 'idle', 2: 'loading', 3: 'timer-armed', 4: 'loading-captured', 5: 'function-running'}
+
+
+def _chunk_eager(args):
+    """The same programs on a loop with `asyncio.eager_task_factory` (tasks start inside create_task): the model does
+    not describe that scheduling, so these runs are judged by the monitors only."""
+    prop, flavor, seed0, count = args
+    logging.disable(logging.CRITICAL)
+    out = Outcome()
+    for i in range(count):
+        rng = random.Random((seed0 << 20) + 500000 + i)
+        T, prog, outcomes = B.gen(rng, flavor)
+        case = {'T': T, 'prog': prog, 'outcomes': outcomes, 'flavor': flavor, 'eager': True}
+        mark(case)
+        out.evaluations += 1
+        try:
+            evs = B.run_real(T, prog, outcomes, eager=True)
+        except Exception as e:
+            out.concrete.append({'case': case, 'what': f'execution failed: {type(e).__name__}: {e}',
+                                 'signature': {'kind': 'exception', 'type': type(e).__name__}})
+            continue
+        for (p, kind, detail) in B.monitors(T, prog, outcomes, evs, {prop}):
+            out.concrete.append({'case': case, 'what': f'(eager task factory) {kind}: {detail}', 'observed': B.canon(evs),
+                                 'signature': {'kind': kind, 'loop': 'eager'}})
+        out.traces_validated += 1
+        out.fingerprints.add(fingerprint(case))
+        out.count('eager-task-factory:programs')
+    return out
 
 
 def _chunk(args):
@@ -163,6 +191,8 @@ def _chunk_threads(args):
 def _dispatch(args):
     if args[0] == 'threads':
         return _chunk_threads(args[1:])
+    if args[0] == 'eager':
+        return _chunk_eager(args[1:])
     return _chunk(args)
 
 
@@ -175,6 +205,8 @@ def make(prop, flavor, quick_n, thorough_n, shutdown=False):
         if prop in ('C03', 'C07'):
             chunks += [('threads', prop, ctx.seed * 1000 + k, 150 if ctx.quick else 4000, 2 if ctx.quick else 12)
                        for k in range(workers)]
+        if hasattr(asyncio, 'eager_task_factory'):
+            chunks += [('eager', prop, flavor, ctx.seed * 1000 + k, 100 if ctx.quick else 3000) for k in range(workers)]
         return run_chunks(_dispatch, chunks, workers, limit_s=60 if ctx.quick else 900)
 
     def search(ctx, outcome):
@@ -200,6 +232,10 @@ def make(prop, flavor, quick_n, thorough_n, shutdown=False):
         T, outcomes = case['T'], [tuple(o) for o in case['outcomes']]
         prog = [tuple(st[:3]) + ([tuple(x) for x in st[3]],) if st[0] == 's' else tuple(st) for st in case['prog']]
         sd = case.get('shutdown_at')
+        if case.get('eager'):
+            evs = B.run_real(T, prog, outcomes, eager=True)
+            bad = B.monitors(T, prog, outcomes, evs, {prop})
+            return {'case': case, 'impl': evs[-12:], 'monitor': bad, 'fails': bool(bad)}
         evs = B.run_real(T, prog, outcomes, shutdown_at=sd)
         line = B.model_line(T, prog, outcomes) + ((';' if prog else '') + f'x:{sd}' if sd is not None else '')
         ans = ctx.driver.ask([line])[0]
